@@ -59,7 +59,7 @@ func fieldcontract_Methods_Unmarshal(in protoiface.UnmarshalInput) (out protoifa
 // message, the remaining recursion budget (C06), the discard-unknown choice (C09), the
 // required-check request (C10) and the lazy-decoding choice.
 //
-// @ props C06 C07 C09 C10
+// @ props C06 C07 C09 C10 C17
 // @ mode int
 // @ nopanic
 // @ guard-errors
